@@ -5,6 +5,7 @@
    The bodies of the third-party decompressors are outside the model (partial; exercised by the malformed streams). *)
 From Coq Require Import ZArith List Bool.
 From GCNP Require Import model.Segment proofs.SegmentProofs model.CqlWire model.CqlContainers proofs.CqlContainerProofs.
+From GCNP Require model.CqlGoVal proofs.CqlGoValProofs.
 From GCNP Require Import base.GoInt base.Bytes base.Codec gen.Constants_gen model.Prim model.DataType model.MsgTypes
   model.Frame model.MsgCodec proofs.PrimTotal proofs.MsgCodecProofs proofs.FrameFinal proofs.MsgResultsDataType.
 Import ListNotations.
@@ -57,6 +58,12 @@ Print Assumptions C04_segment_lengths_in_range.
 Theorem C04_cql_decode_no_panic : forall v t src, m_decode v t src <> PANIC.
 Proof. exact decode_no_panic. Qed.
 Print Assumptions C04_cql_decode_no_panic.
+
+(* ... and into every TYPED Go destination of the modelled universe (slices, arrays, maps keyed by anything incl. interface{},
+   structs, pointers, named and non-empty interface types), whatever the destination already holds *)
+Theorem C04_cql_typed_decode_no_panic : forall v t gt d src, CqlGoVal.g_decode v t gt d src <> PANIC.
+Proof. exact CqlGoValProofs.g_decode_no_panic. Qed.
+Print Assumptions C04_cql_typed_decode_no_panic.
 
 (* non-vacuity: inputs on which the real code used to panic are errors in the model of the fixed code *)
 Example C04_nonvacuous :
